@@ -26,6 +26,7 @@ type Env struct {
 	oldTop T // allocation frontier of the old state (for fresh())
 	at     string
 	loopPre *State // state at loop entry (before havoc), for loopold()/loopfresh()
+	params  map[string]Val // entry values of the formals (visible when no local shadows them)
 }
 
 func (e *Env) with(st *State) *Env {
@@ -114,7 +115,8 @@ func (e *Env) eval(x ast.Expr) Val {
 		return e.ident(x.Name)
 	case *ast.SelectorExpr:
 		if id, ok := x.X.(*ast.Ident); ok {
-			if _, bound := e.vars[id.Name]; !bound && (e.fr == nil || e.fr.localByName(id.Name, e) == nil) {
+			_, isParam := e.params[id.Name]
+			if _, bound := e.vars[id.Name]; !bound && !isParam && (e.fr == nil || e.fr.localByName(id.Name, e) == nil) {
 				if p := e.c.P.lookupPkgByName(e.pkg, id.Name); p != nil {
 					return e.pkgMember(p, x.Sel.Name)
 				}
@@ -165,6 +167,9 @@ func (e *Env) ident(name string) Val {
 		if a := e.fr.localByName(name, e); a != nil {
 			return e.c.readAlloc(e.fr, e.st, a)
 		}
+	}
+	if v, ok := e.params[name]; ok {
+		return v
 	}
 	if e.pkg != nil {
 		if obj := e.pkg.Scope().Lookup(name); obj != nil {
@@ -260,7 +265,7 @@ func (e *Env) index(base Val, ix ast.Expr) Val {
 	switch u := base.Typ.Underlying().(type) {
 	case *types.Slice:
 		i := e.evalInt(ix)
-		return e.c.loadElem(e.st, u.Elem(), base.L[0], add(base.L[1], i))
+		return e.c.loadElem(e.st, u.Elem(), base.L[0], slIdx(base.L[1], i))
 	case *types.Map:
 		k := e.eval(ix)
 		return e.c.mapGet(e.st, u, base.one(), k.one())
@@ -771,6 +776,46 @@ func (e *Env) builtin(name string, x *ast.CallExpr) (Val, bool) {
 		k := e.eval(arg(1))
 		e.c.declCtx()
 		return Val{Typ: types.NewInterfaceType(nil, nil), L: []T{app("ctx.tag", cv.L[1], k.one()), app("ctx.ref", cv.L[1], k.one())}}, true
+	case "msum":
+		m := e.eval(arg(0))
+		mt, ok := m.Typ.Underlying().(*types.Map)
+		if !ok || !e.c.msumApplies(mt) {
+			e.fail("msum() wants a map[string]string")
+		}
+		return intVal(e.c.msumOf(e.st, mt, m.one())), true
+	case "vsum":
+		// partial byte sum over the keys visited so far by the enclosing map-range loop
+		if e.rng == nil {
+			e.fail("vsum() outside a map-range loop invariant")
+		}
+		m := e.eval(arg(0))
+		mt := m.Typ.Underlying().(*types.Map)
+		e.c.declMsum()
+		v := sel(e.c.heapGet(e.st, mapValKey(mt, ""), arr(sInt, arr(sStr, sStr))), m.one())
+		e.c.sc.assume(eq(app("msum", constArray(arr(sStr, sBool), "false"), v), "0"))
+		return intVal(app("msum", e.st.iters[*e.rng], v)), true
+	case "witness":
+		// witness(i, lo, hi, P): some index in [lo,hi) satisfying P, or lo-1 when
+		// there is none (skolem constant of a valid existential)
+		v, ok := arg(0).(*ast.Ident)
+		if !ok {
+			e.fail("witness: first argument must be a variable name")
+		}
+		lo, hi := e.evalInt(arg(1)), e.evalInt(arg(2))
+		ph := "q.WITNESS"
+		body := e.bind(v.Name, Val{Typ: tInt, L: []T{ph}}).evalBool(arg(3))
+		key := "witness:" + lo + "|" + hi + "|" + body
+		if w, ok := e.c.witnesses[key]; ok {
+			return intVal(w), true
+		}
+		w := e.c.sc.fresh("witness", sInt)
+		e.c.witnesses[key] = w
+		bv := "q.wi." + strconv.Itoa(e.c.nextID())
+		none := fmt.Sprintf("(forall ((%s Int)) (=> (and (<= %s %s) (< %s %s)) (not %s)))", bv, lo, bv, bv, hi, strings.ReplaceAll(body, ph, bv))
+		e.c.sc.assume(or(and(le(lo, w), lt(w, hi), strings.ReplaceAll(body, ph, w)), and(eq(w, sub(lo, "1")), none)))
+		return intVal(w), true
+	case "tsum", "tsumSplit", "tsumOne", "tsumSame":
+		return e.tsumBuiltin(name, x), true
 	case "slen":
 		v := e.eval(arg(0))
 		return intVal(app("slen", v.one())), true
@@ -796,6 +841,8 @@ type ModLoc struct {
 	Idx    T // inner index for two-level keys ("" = whole inner array)
 	HasIdx bool
 	Glob   bool
+	Leaf   Leaf
+	HasLeaf bool
 }
 
 func (e *Env) designator(x ast.Expr) []ModLoc {
@@ -844,7 +891,7 @@ func (e *Env) designator(x ast.Expr) []ModLoc {
 		}
 		var out []ModLoc
 		for _, l := range leavesOf(t) {
-			out = append(out, ModLoc{Key: boxKey(t, l.Suffix), Sort: arr(sInt, l.Sort), Ref: p.one()})
+			out = append(out, ModLoc{Key: boxKey(t, l.Suffix), Sort: arr(sInt, l.Sort), Ref: p.one(), Leaf: l, HasLeaf: true})
 		}
 		return out
 	case *ast.IndexExpr:
@@ -860,9 +907,9 @@ func (e *Env) designator(x ast.Expr) []ModLoc {
 			}
 			var out []ModLoc
 			for _, l := range leavesOf(u.Elem()) {
-				m := ModLoc{Key: elemKey(u.Elem(), l.Suffix), Sort: arr(sInt, arr(sInt, l.Sort)), Ref: base.L[0]}
+				m := ModLoc{Key: elemKey(u.Elem(), l.Suffix), Sort: arr(sInt, arr(sInt, l.Sort)), Ref: base.L[0], Leaf: l, HasLeaf: true}
 				if !all {
-					m.HasIdx, m.Idx = true, add(base.L[1], e.evalInt(x.Index))
+					m.HasIdx, m.Idx = true, slIdx(base.L[1], e.evalInt(x.Index))
 				}
 				out = append(out, m)
 			}
@@ -871,7 +918,7 @@ func (e *Env) designator(x ast.Expr) []ModLoc {
 			ks := keySortOfMap(u)
 			out := []ModLoc{{Key: mapDomKey(u), Sort: arr(sInt, arr(ks, sBool)), Ref: base.one()}}
 			for _, l := range leavesOf(u.Elem()) {
-				out = append(out, ModLoc{Key: mapValKey(u, l.Suffix), Sort: arr(sInt, arr(ks, l.Sort)), Ref: base.one()})
+				out = append(out, ModLoc{Key: mapValKey(u, l.Suffix), Sort: arr(sInt, arr(ks, l.Sort)), Ref: base.one(), Leaf: l, HasLeaf: true})
 			}
 			if !all {
 				k := e.eval(x.Index).one()
@@ -884,7 +931,7 @@ func (e *Env) designator(x ast.Expr) []ModLoc {
 			if a, ok := u.Elem().Underlying().(*types.Array); ok {
 				var out []ModLoc
 				for _, l := range leavesOf(a.Elem()) {
-					m := ModLoc{Key: elemKey(a.Elem(), l.Suffix), Sort: arr(sInt, arr(sInt, l.Sort)), Ref: base.one()}
+					m := ModLoc{Key: elemKey(a.Elem(), l.Suffix), Sort: arr(sInt, arr(sInt, l.Sort)), Ref: base.one(), Leaf: l, HasLeaf: true}
 					if !all {
 						m.HasIdx, m.Idx = true, e.evalInt(x.Index)
 					}
@@ -919,7 +966,7 @@ func (c *Ctx) fieldLocs(st types.Type, f *types.Var, ref T) []ModLoc {
 	}
 	var out []ModLoc
 	for _, l := range leavesOf(f.Type()) {
-		out = append(out, ModLoc{Key: fieldKey(st, f.Name(), l.Suffix), Sort: arr(sInt, l.Sort), Ref: ref})
+		out = append(out, ModLoc{Key: fieldKey(st, f.Name(), l.Suffix), Sort: arr(sInt, l.Sort), Ref: ref, Leaf: l, HasLeaf: true})
 	}
 	return out
 }
@@ -933,4 +980,96 @@ func innerSort(s string) (string, string) {
 	}
 	i := strings.Index(s, " ")
 	return s[:i], strings.TrimSpace(s[i+1:])
+}
+
+// ---- sum over a slice of string maps (cache accounting) ----
+//
+// tsum(s, lo, hi) = sum over i in [lo,hi) of msum(s[i]) in the current state.
+// The lemma builtins return *valid instances* of the sum library (definition
+// unfolding, range split, congruence between two states); a `use` clause whose
+// head is one of them is assumed, not proved (trusted lemma library).
+
+var lemmaBuiltins = map[string]bool{"tsumSplit": true, "tsumOne": true, "tsumSame": true}
+
+func (e *Env) tsumParts(st *State, sv Val) (E, D, V T, mt *types.Map) {
+	sl, ok := sv.Typ.Underlying().(*types.Slice)
+	if !ok {
+		e.fail("tsum wants a slice of maps")
+	}
+	mt, ok = sl.Elem().Underlying().(*types.Map)
+	if !ok || !e.c.msumApplies(mt) {
+		e.fail("tsum wants a []map[string]string")
+	}
+	c := e.c
+	c.declMsum()
+	c.sc.declareFun("tsum", []string{arr(sInt, sInt), arr(sInt, arr(sStr, sBool)), arr(sInt, arr(sStr, sStr)), sInt, sInt}, sInt)
+	E = c.elemArray(st, sl.Elem(), 0, sv.L[0])
+	D = c.heapGet(st, mapDomKey(mt), arr(sInt, arr(sStr, sBool)))
+	V = c.heapGet(st, mapValKey(mt, ""), arr(sInt, arr(sStr, sStr)))
+	return
+}
+
+func (e *Env) tsumBuiltin(name string, x *ast.CallExpr) Val {
+	c := e.c
+	sv := e.eval(x.Args[0])
+	E, D, V, _ := e.tsumParts(e.st, sv)
+	off := sv.L[1]
+	abs := func(i T) T { return slIdx(off, i) }
+	ts := func(E, D, V, lo, hi T) T { return app("tsum", E, D, V, lo, hi) }
+	switch name {
+	case "tsum":
+		lo, hi := e.evalInt(x.Args[1]), e.evalInt(x.Args[2])
+		t := ts(E, D, V, abs(lo), abs(hi))
+		c.sc.assume(imp(le(lo, hi), ge(t, "0")))
+		return intVal(t)
+	case "tsumSplit":
+		lo, m, hi := e.evalInt(x.Args[1]), e.evalInt(x.Args[2]), e.evalInt(x.Args[3])
+		c.trust("sum lemma library: tsum(lo,hi) = tsum(lo,m) + tsum(m,hi); tsum(i,i+1) = msum(s[i]); tsum(i,i) = 0; congruence over unchanged scopes")
+		return boolVal(imp(and(le(lo, m), le(m, hi)), and(eq(ts(E, D, V, abs(lo), abs(hi)), add(ts(E, D, V, abs(lo), abs(m)), ts(E, D, V, abs(m), abs(hi)))),
+			ge(ts(E, D, V, abs(lo), abs(m)), "0"), ge(ts(E, D, V, abs(m), abs(hi)), "0"))))
+	case "tsumOne":
+		i := e.evalInt(x.Args[1])
+		c.trust("sum lemma library: tsum(lo,hi) = tsum(lo,m) + tsum(m,hi); tsum(i,i+1) = msum(s[i]); tsum(i,i) = 0; congruence over unchanged scopes")
+		r := sel(E, abs(i))
+		return boolVal(and(eq(ts(E, D, V, abs(i), abs(add(i, "1"))), app("msum", sel(D, r), sel(V, r))), eq(ts(E, D, V, abs(i), abs(i)), "0")))
+	case "tsumSame":
+		// relates old(s) in the old state with s in the current state on [lo,hi)
+		if e.old == nil {
+			e.fail("tsumSame needs an old state")
+		}
+		lo, hi := e.evalInt(x.Args[1]), e.evalInt(x.Args[2])
+		n := *e
+		n.st = e.old
+		n.fr = nil
+		osv := n.eval(x.Args[0])
+		oE, oD, oV, _ := e.tsumParts(e.old, osv)
+		ooff := osv.L[1]
+		c.trust("sum lemma library: tsum(lo,hi) = tsum(lo,m) + tsum(m,hi); tsum(i,i+1) = msum(s[i]); tsum(i,i) = 0; congruence over unchanged scopes")
+		j := fmt.Sprintf("q.ts.%d", c.nextID())
+		r := sel(E, slIdx(off, j))
+		prem := fmt.Sprintf("(forall ((%s Int)) (=> (and (<= %s %s) (< %s %s)) %s))", j, lo, j, j, hi,
+			and(eq(r, sel(oE, slIdx(ooff, j))), eq(sel(D, r), sel(oD, r)), eq(sel(V, r), sel(oV, r))))
+		return boolVal(imp(prem, eq(ts(E, D, V, abs(lo), abs(hi)), ts(oE, oD, oV, slIdx(ooff, lo), slIdx(ooff, hi)))))
+	}
+	panic("tsumBuiltin")
+}
+
+// isLemmaUse: a `use` clause that only instantiates the trusted lemma library.
+func isLemmaUse(x ast.Expr) bool {
+	switch x := x.(type) {
+	case *ast.ParenExpr:
+		return isLemmaUse(x.X)
+	case *ast.BinaryExpr:
+		return x.Op == token.LAND && isLemmaUse(x.X) && isLemmaUse(x.Y)
+	case *ast.CallExpr:
+		if id, ok := x.Fun.(*ast.Ident); ok {
+			if lemmaBuiltins[id.Name] {
+				return true
+			}
+			if id.Name == "old" && len(x.Args) == 1 {
+				return isLemmaUse(x.Args[0])
+			}
+		}
+	}
+	return false
 }
